@@ -115,6 +115,9 @@ def compress_as(filename, fmt, target=None, keep=True):
     compfile = get_compressor(fmt)
     try:
         if fmt == "zip":
+            # Fail before the target is touched if there is nothing to
+            # compress (the other formats open the source first as well):
+            os.stat(filename)
             with compfile(target, 'w') as f_out:
                 f_out.write(
                     filename, arcname=target_filename,
